@@ -2,7 +2,7 @@
    [run opcode argument].  Extracted to OCaml (bin/dlms_model) and also evaluated in the
    kernel by generated cases files.  Opcode names are parsed from the comments below by
    harness/lib.py — keep the format  "| <n> (* <name> *) =>". *)
-From Dlms Require Import Base CrcModel CrcSpec FieldsModel FieldsSpec AddrModel AddrSpec WrapperModel WrapperProofs TimeModel TimeProofs AxdrModel AxdrSpec AxdrProofs FrameModel FrameProofs HdlcConnModel HdlcScript HdlcLinkProofs.
+From Dlms Require Import Base CrcModel CrcSpec FieldsModel FieldsSpec AddrModel AddrSpec WrapperModel WrapperProofs TimeModel TimeProofs AxdrModel AxdrSpec AxdrProofs FrameModel FrameProofs HdlcConnModel HdlcScript HdlcLinkProofs ParsersModel.
 
 Definition v_bools (l : list bool) : V := VList (map VBool l).
 Definition as_bools (v : V) : list bool := map as_b (as_list v).
@@ -103,6 +103,23 @@ Fixpoint script_run (c : conn) (ops : list V) : list V :=
   | [] => []
   | o :: r => let '(out, c') := script_step c o in out :: script_run c' r
   end.
+
+Fixpoint as_pv (v : V) : pv :=
+  match v with
+  | VNone => PNone | VBool b => PBool b | VInt z => PInt z | VBytes l => PBytes l
+  | VList l => PList ((fix go (l : list V) : list pv := match l with [] => [] | x :: r => as_pv x :: go r end) l)
+  | VErr _ => PNone
+  end.
+Definition v_cell (c : cell) : V :=
+  match c with
+  | CellNone => VNone
+  | Cell col (CDateTime x) => VList [v_nat col; VList [VBytes [100; 116]; v_dtime x]]
+  | Cell col (CRaw p) => VList [v_nat col; v_pv p]
+  end.
+Definition v_access (x : access_item) : V := let '(a, rights, sel) := x in VList [v_pv a; v_ns rights; v_pv sel].
+Definition v_object (x : object_item) : V :=
+  let '(cls, version, name, attrs, meths) := x in
+  VList [VN cls; v_pv version; VBytes name; VList (map v_access attrs); VList (map v_access meths)].
 
 Definition run (op : N) (a : V) : V :=
   match op with
@@ -215,5 +232,15 @@ Definition run (op : N) (a : V) : V :=
   | 112 (* spec_nrm *) =>
       let d := if as_n (arg 1 a) =? 0 then DSend else DRecv in
       VList [v_optn (nrm_must (as_n (arg 0 a)) d (as_kind (arg 2 a))); v_optn (nrm_may (as_n (arg 0 a)) d (as_kind (arg 2 a)))]
+  (* ---- profile buffers and object lists (C15) ---- *)
+  | 120 (* profile_parse_entries *) =>
+      v_res (fun rows => VList (map (fun r => VList (map v_cell r)) rows))
+            (parse_entries (as_bools (arg 0 a)) (as_z (arg 1 a)) (as_pv (arg 2 a)))
+  | 121 (* profile_parse_bytes *) =>
+      v_res (fun rows => VList (map (fun r => VList (map v_cell r)) rows))
+            (profile_parse_bytes (as_bools (arg 0 a)) (as_z (arg 1 a)) (as_bytes (arg 2 a)))
+  | 122 (* parse_access_right *) => v_ns (parse_access_right (as_n a))
+  | 123 (* parse_object_list *) => v_res (fun l => VList (map v_object l)) (parse_object_list (as_pv a))
+  | 124 (* add_minutes *) => v_res v_dtime (add_minutes (as_dtime (arg 0 a)) (as_z (arg 1 a)))
   | _ => bad_args
   end.
